@@ -2066,7 +2066,11 @@ class BaseInterpreter(Generic[TContext, TEvent]):
                     return [resolved]
             if parent.initial and parent.initial in parent.states:
                 return [parent.states[parent.initial]]
-            return []
+            # 🌐 A parallel parent has no `initial`: its normal entry is
+            #    "every region". Returning nothing here exited the parent and
+            #    entered nothing in its place, leaving a hole in the
+            #    configuration. Entering the parent itself runs that default.
+            return [parent]
 
         if history_node.history == "deep":
             # 🌊 Deep history restores the full nested configuration; entering
